@@ -354,6 +354,25 @@ def rule_V6(ctx: Ctx) -> None:
               "the node list is transposed or misses a row/column on oblong grids")
 
 
+def rule_V7(ctx: Ctx) -> None:
+    f = ctx.index.func(f"{UT}.manhattan_distance")
+    rs = X.returns_of(f.node)
+    ok = len(rs) == 2 and X.same_expr(rs[0].value, "np.linalg.norm(edges[:, 0, :] - edges[:, 1, :], axis=1, ord=1).astype(np.int8)") \
+        and X.same_expr(rs[1].value, "np.linalg.norm(edges[0, :] - edges[1, :], ord=1).astype(np.int8)")
+    ctx.judge(f, ok, {"returns": [X.U(r.value)[:90] for r in rs]}, "manhattan_distance = L1 norm (ord=1) of the difference of the two coordinates, per edge (axis 1) or for a single edge",
+              "another norm / axis: distances of diagonal or multi-edge arrays are wrong")
+    g = ctx.index.func(f"{UT}.lattice_max_degrees")
+    init = X.assignments_to(g.node, "out")
+    augs = [a for a in ast.walk(g.node) if isinstance(a, ast.AugAssign)]
+    forms = sorted((tuple(N.slice_form(p) for p in N.subscript_parts(a.target)) for a in augs if isinstance(a.target, ast.Subscript)), key=repr)
+    inner = ("slice", N.aff_key(N.affine(ast.Constant(1))), N.aff_key(N.affine(ast.Constant(-1))), None)
+    full = ("slice", None, None, None)
+    ok = len(init) == 1 and X.same_expr(init[0], "np.full((n, n), 2)") and forms == sorted([(inner, full), (full, inner)], key=repr) \
+        and all(isinstance(a.op, ast.Add) and N.const_int(a.value) == 1 for a in augs)
+    ctx.judge(g, ok, {"init": X.U(init[0]) if init else None, "increments": [X.U(a) for a in augs]},
+              "maximum degree: 2 at corners, +1 for every axis along which the cell is interior")
+
+
 RULES = [
     Rule("C13.V1", rule_V1, floor=9, doc="one convention, site by site"),
     Rule("C13.V2", rule_V2, floor=3, doc="neighbours and component expansion"),
@@ -361,4 +380,5 @@ RULES = [
     Rule("C13.V4", rule_V4, floor=2, doc="fork partition"),
     Rule("C13.V5", rule_V5, floor=2, doc="adjacency list once per edge"),
     Rule("C13.V6", rule_V6, floor=1, doc="node list"),
+    Rule("C13.V7", rule_V7, floor=2, doc="manhattan_distance and lattice_max_degrees"),
 ]
